@@ -115,6 +115,13 @@ theorem sum_ints (e : Expr) (vs : List Value) (i : Int) (is : List Int) (h : non
     | cons x xs ih => simp only [ints, List.map_cons, asInt, collect_cons_some] at ih ⊢; rw [ih]; rfl
   have hi : ints (Value.int i :: is.map Value.int) = some (i :: is) := hall (i :: is)
   simp only [aggregate, h, sumOf, List.map_cons, hi, hok, if_true]
+/-- SUM, the overflow case: INT values (each an i64) with a partial sum outside the 64-bit range make the engine's SUM
+fold report `UndefinedOperation` (an error message — C09 — not a wrapped value and not a panic) -/
+theorem sum_overflow_is_error (e : Expr) (v : Value) (vs : List Value) (is : List Int)
+    (h : nonNull (v :: vs) = is.map Value.int) (hrange : ∀ i ∈ is, inI64 i = true)
+    (hov : partialSumsOk inI64 0 is = false) :
+    foldV (.sum e) (v :: vs) {} = .error .undefinedOperation :=
+  sum_int_overflow_is_error e v vs is h hrange hov
 /-- MIN = a value of the group that no value of the group is below, by the value order of `Value.cmp` -/
 theorem min_is_least (xs : List Value) (h : xs ≠ []) :
     extreme true xs ∈ xs ∧ ∀ y ∈ xs, Value.cmp (extreme true xs) y ≠ .gt := extreme_min_spec xs h
@@ -255,6 +262,9 @@ example : ∃ st, aggRun {} exCount [{}, {}] {} = .ok st ∧ table {} exCount [{
   exact agg_refines_spec_of_run ⟨rfl, fun _ => rfl⟩ [{}, {}] rfl rfl rfl
 /-- a non-trivial MIN: the least of 3, 1, 2 -/
 example : aggregate (.min (.column "v")) [.int 3, .null, .int 1, .int 2] = some (.int 1) := rfl
+/-- a sum that overflows: i64::MAX + 1 -/
+example : foldV (.sum (.column "v")) [.int 9223372036854775807, .int 1] {} = .error .undefinedOperation :=
+  sum_overflow_is_error _ _ _ [9223372036854775807, 1] rfl (by decide) rfl
 /-- a sum whose partial sums stay in range -/
 example : aggregate (.sum (.column "v")) [.int 3, .null, .int (-1)] = some (.int 2) := by
   exact sum_ints (.column "v") [.int 3, .null, .int (-1)] 3 [-1] rfl rfl
